@@ -470,3 +470,7 @@ pub fn check() -> Check {
         stub: STUB_SIM.to_vec(),
     }
 }
+
+pub fn selftest(seed: u64, i: usize) -> Scenario {
+    rx_keepalive(seed, i)
+}
